@@ -127,7 +127,12 @@ def structure(h):
         for o in range(-1, max(h.num_out_ports(n), 0)):
             for p in h.linked_ports(n.out(o)):
                 per_port[(new[n.idx], o, new.get(p.node.idx, -1), p.offset)] += 1
-    return {"n": len(h), "nodes": nodes, "links": links, "per_port": per_port}
+    per_in = Counter()       # ... and the same links as seen from their target ports (a gap in the sub-offsets of an in-port hides links)
+    for n in order:
+        for o in range(-1, max(h.num_in_ports(n), 0)):
+            for p in h.linked_ports(n.inp(o)):
+                per_in[(new.get(p.node.idx, -1), p.offset, new[n.idx], o)] += 1
+    return {"n": len(h), "nodes": nodes, "links": links, "per_port": per_port, "per_in": per_in}
 
 
 def _function_bodies(v, depth=0):
@@ -156,4 +161,7 @@ def same_structure(a, b):
         return f"links differ: only-original {list((a['links'] - b['links']).items())[:3]} only-reloaded {list((b['links'] - a['links']).items())[:3]}"
     if a["per_port"] != b["per_port"] or a["per_port"] != a["links"]:
         return "linked_ports listing differs from links()"
+    if a["per_in"] != b["per_in"] or a["per_in"] != a["links"]:
+        return ("linked_ports listing of the in-ports differs from links(): only-links "
+                f"{list((a['links'] - a['per_in']).items())[:3]} only-listing {list((a['per_in'] - a['links']).items())[:3]} reloaded-listing-extra {list((b['per_in'] - a['per_in']).items())[:3]}")
     return None
